@@ -571,7 +571,7 @@ func (e *Engine) ExecCall(c *Call) *CallRecord {
 		props := mismatchProps(c.Fn, mm)
 		add(Clause{Props: props, Sig: c.Fn + "/" + v.Side + "/state-" + mm.Class, Msg: sprintf("after %s: %s", c.String(), mm.Msg)})
 	}
-	add(m.WellFormed(e.W, c.Shard)...)
+	add(m.WellFormed(e.W, c.Shard, res.Diff)...)
 	add(m.Conservation(e.W)...)
 	return rec
 }
